@@ -1,0 +1,21 @@
+//go:build verif
+
+// Contracts for the API router, read by /verif/govc. Ghost state, the ReadHandler spec and the assumed
+// contracts of chi / net/http / backend are in /verif/contracts/extern/api.contracts.
+// This file contains comments only; it is compiled only with -tags verif.
+
+package api
+
+// the read-only filter: a request whose method is not GET, HEAD or OPTIONS is answered here and never handed on
+//@ func api.ReadOnly$1
+//@   requires r != nil && !delegated
+//@   ensures !(r.Method == "GET" || r.Method == "HEAD" || r.Method == "OPTIONS") ==> !delegated
+//@   ensures ledgerWrites == old(ledgerWrites)
+//@   property C19
+
+// in read-only mode the filter is installed on the top-level mux before any route is registered (chi: a
+// middleware wraps everything registered after it)
+//@ func api.NewRouter
+//@   assumes roMode == readOnly && !roInstalled
+//@   ensures readOnly ==> roInstalled
+//@   property C19
